@@ -125,6 +125,8 @@ func (l *RtpPacketList) Reset() {
 	l.doneSeqFlag = false
 	l.doneSeq = 0
 	l.Head.Next = nil
+	// 链表清空了，计数也要清零，否则Size只增不减，最终空链表也会被判定为Full
+	l.Size = 0
 }
 
 func (l *RtpPacketList) DebugString() string {
